@@ -80,6 +80,8 @@ type VM struct {
 	Asserted  map[string]int
 	unknowns  int
 	mapIDs    int
+	syncMaps  map[*Value]*Map
+	onceDone  map[*Value]bool
 	mapOrder  bool // symbolic map iteration order
 	FnSeen    map[string]bool
 	pathNotes map[string]string
